@@ -139,7 +139,7 @@ def h_scale(ctx, name, n, const=False, nan_at=None):
     try:
         got = f(arr(data))
     except Exception as exc:
-        ctx.claim(False, f"{name} raised {type(exc).__name__}", info=str(exc)[:200])
+        claim_raised(ctx, f"{name}", exc)
         return
     ctx.observe("value", got)
     ctx.claim(got >= 0, f"{name} is non-negative")
@@ -272,7 +272,7 @@ def h_biweight(ctx, which, n, const, nan_at=None):
         try:
             got = (D.biweight_location if which == "loc" else D.biweight_midvariance)(arr(data))
         except Exception as exc:
-            ctx.claim(False, f"biweight {which} raised {type(exc).__name__}", info=str(exc)[:200])
+            claim_raised(ctx, f"biweight {which}", exc)
             return
         if which == "loc":
             ctx.claim(And(got >= Min_(xs) - 1e-9, got <= Max_(xs) + 1e-9), "biweight location ignores NaN and lies within the data range")
@@ -318,7 +318,7 @@ def h_rolling_median(ctx, n, width, const=False):
     try:
         got = S.rolling_median(arr(xs), width)
     except Exception as exc:
-        ctx.claim(False, f"rolling_median raised {type(exc).__name__}")
+        claim_raised(ctx, "rolling_median", exc)
         return
     got = list(got)
     ctx.observe("out", got)
@@ -343,7 +343,7 @@ def h_kaiser(ctx, n, width, const=False):
     try:
         got = S.kaiser(arr(xs), width)
     except Exception as exc:
-        ctx.claim(False, f"kaiser raised {type(exc).__name__}")
+        claim_raised(ctx, "kaiser", exc)
         return
     got = list(got)
     ctx.observe("out", got)
@@ -364,7 +364,7 @@ def h_savgol_w(ctx, n, width, const=False, case=None):
     try:
         got = S.savgol(arr(xs), width, weights=ws.copy())
     except Exception as exc:
-        ctx.claim(False, f"savgol raised {type(exc).__name__}")
+        claim_raised(ctx, "savgol", exc)
         return
     got = list(got)
     ctx.observe("out", got)
